@@ -13,4 +13,8 @@ for d, _, fs in os.walk(os.path.join(root, "shims")):
             if os.path.exists(dst):
                 sys.exit("shim would replace existing file " + dst)
             rep[dst] = os.path.join(d, f)
-json.dump({"Replace": rep}, open(os.path.join(root, "harness", "overlay.json"), "w"), indent=1)
+new = json.dumps({"Replace": rep}, indent=1, sort_keys=True)
+dst = os.path.join(root, "harness", "overlay.json")
+if not os.path.exists(dst) or open(dst).read() != new:
+    open(dst + ".tmp", "w").write(new)
+    os.replace(dst + ".tmp", dst)
